@@ -108,6 +108,15 @@ def one_history(args):
                 (out / "STALE_EXTRA.txt").write_text("left over\n")
                 (out / "stale_dir").mkdir(exist_ok=True)
                 (out / "stale_dir" / "old.py").write_text("x = 1\n")
+            elif cfg["pre"] == "crlf":
+                # the output of an earlier run of the same generation, equal to it up to the line endings
+                # (a CRLF working copy, an editor that normalised the line endings)
+                out.mkdir(parents=True, exist_ok=True)
+                for p in sorted(out.rglob("*")):
+                    if p.is_file():
+                        data = p.read_bytes().replace(b"\r\n", b"\n")
+                        p.write_bytes(data.replace(b"\n", b"\r\n"))
+                (out / "CRLF_NOTE.txt").write_bytes(b"line endings changed\r\n")
             elif cfg["pre"] == "unrelated":
                 if out.exists():
                     shutil.rmtree(out)
